@@ -445,9 +445,36 @@ func vEnded(st *vStep, pre *vPre) {
 	}
 }
 
-// vA asserts with a label that names the call site class (role and command of
-// the step), so that a recorded finding identifies one handler and the same
-// kind of violation in another handler is still reported.
+// vA records an obligation with a label that names the call site class (role
+// and command of the step), so that a recorded finding identifies one handler
+// and the same kind of violation in another handler is still reported.  The
+// obligations of a step are discharged together by vFlush: one query decides
+// whether all of them hold on the path; only if not are they asserted one by
+// one (which names the violated ones).
 func vA(st *vStep, c bool, label string) {
-	verifAssert(c, label+":"+vRoleNames[st.role]+":"+st.cmd)
+	st.pend = append(st.pend, vObligation{c, label + ":" + vRoleNames[st.role] + ":" + st.cmd})
+}
+
+type vObligation struct {
+	c     bool
+	label string
+}
+
+func vFlush(st *vStep) {
+	if len(st.pend) == 0 {
+		return
+	}
+	all := true
+	for _, o := range st.pend {
+		all = verifAnd(all, o.c)
+	}
+	if all {
+		verifAssert(true, st.pend[0].label)
+		st.pend = nil
+		return
+	}
+	for _, o := range st.pend {
+		verifAssert(o.c, o.label)
+	}
+	st.pend = nil
 }
